@@ -50,6 +50,14 @@ CHECKS.update({
               "chest contents, TLC evaluates the placed entity's circuit condition on the network actually wired to it and compares it with "
               "(expr > 0); values derived from .output are compared as in C01/C02 (so a contribution counted twice is a failure)."),
         design="DESIGN 7 C06", technique="TLC refinement of entity circuit conditions with environment emitters"),
+    "C08": dict(
+        text=("(1) The layout stage's control flow (retry loop, relaxation ladder, quick solve, routing) is a TLA+ design model checked "
+              "exhaustively (safety and liveness). (2) Its behaviours are forced into the real code as layout-outcome scripts (hook H2) for "
+              "programs of every family x pole option x optimise on/off; every emitted blueprint is checked by Paste.tla (collision boxes "
+              "disjoint, wire ends exist with such a connector, one colour per wire, length within the reach of both ends, prototype data "
+              "from the game data) and must still refine the source (a relay joining two networks changes a value); the recorded solver / "
+              "routing events must be a behaviour of the model ending in the observed outcome; a scripted total failure must emit nothing."),
+        design="DESIGN 7 C08, 3.5 Layout", technique="TLC design model + fault scripts replayed into the code + trace validation + geometric invariants on the output"),
     "C09": dict(
         text=("TLC compares the bag of non-compiler-made entities of the blueprint with the interpreter's list of executed place() "
               "statements (loops iterate, calls substitute, int arithmetic is Int32): prototype, top-left tile, static properties; nothing "
@@ -103,6 +111,17 @@ CHECKS.update({
               "interpreter and in lock-step against the pasted twin (Facto!Paste). (3) Every function of lib/math.facto is judged against "
               "its documented mathematical definition over the boundary domain (arguments whose documented formula overflows are skipped)."),
         design="DESIGN 7 C17, 3.5 Import", technique="TLC design model incl. liveness + trace validation of import hook events + twin refinement + library contracts"),
+    "C18": dict(
+        text=("For programs of every family x pole type: Paste.tla's power clauses on the poled build (every electricity consumer touches the "
+              "supply area of a pole of the requested type, poles form one copper network with wires within reach), 'every pole is a relay' on "
+              "the plain build, lock-step equality of exported values between the two builds and equal bags of user-placed entities."),
+        design="DESIGN 7 C18", technique="TLC evaluation of power/geometry invariants + lock-step product of poled and plain builds"),
+    "C19": dict(
+        text=("Each program is compiled under 8-12 variations (hash seeds in fresh processes, working directory, solver seed, time budget, "
+              "natural multi-worker mode, forced relaxation / routing retry, second in-process compile after an unrelated program); TLC "
+              "compares the canonical form of every build (Canon.tla: multiset of configured entities incl. labels + partition of their "
+              "connectors into networks with relays contracted) with the reference build."),
+        design="DESIGN 7 C19", technique="TLC comparison of canonical forms (Canon.tla) of builds produced under varied schedules/configurations"),
     "C20": dict(
         text=("For every program of the scalar core, optimised and unoptimised build: producer label carries name and line, exactly one empty "
               "anchor labelled with the name (or a constant producer), the anchor reads the interpreter's value on the result's own signal, every "
